@@ -580,13 +580,13 @@ func (c *Client) AllocateTCP() (*client.TCPAllocation, error) {
 // as described in https://datatracker.ietf.org/doc/html/rfc5766#section-9
 func (c *Client) CreatePermission(addrs ...net.Addr) error {
 	if conn := c.relayedUDPConn(); conn != nil {
-		if err := conn.CreatePermissions(addrs...); err != nil {
+		if err := conn.RequestPermissions(addrs...); err != nil {
 			return err
 		}
 	}
 
 	if allocation := c.getTCPAllocation(); allocation != nil {
-		if err := allocation.CreatePermissions(addrs...); err != nil {
+		if err := allocation.RequestPermissions(addrs...); err != nil {
 			return err
 		}
 	}
